@@ -607,7 +607,7 @@ func (a snap) diff(b snap) string {
 
 func TestC06(t *testing.T) {
 	c := ev.Get("C06")
-	c.Rule = "a generated multi-replica program (1-4 writers, default/link-key/legacy codec) builds valid logs; every appended entry must verify and the source must merge into a fresh permissive replica. Then a corruption plan (0..all positions; kinds: signature removed/from another entry/bit-flipped, key removed/foreign/garbage/truncated, payload/next/time changed after signing, foreign log id) is applied to copies placed in a source log built with NewLog(Entries, Heads), the destination holds another replica's entries - all of them or, in three cases of eight, only a window of the newest ones (what a bounded merge or limited load leaves) - and a generated pure access policy (deny by writer / payload prefix / hash set, or one that inspects the log through the context the library hands over and permits an entry only while that log is exactly what the destination held before the merge). The harness computes the candidate set itself; if any candidate is invalid or denied the merge must fail and leave the full snapshot (entries, heads, values, published heads, clock, result of a following append) unchanged, otherwise it must succeed with destination ∪ candidates. In half of the programs the valid source is first offered to a replica of another codec configuration (another link key, a link key where the writers have none, none where they have one): whatever it answers, every entry must still verify and merge under its own configuration. After every merge, whatever the log hands out as entries, heads or values under an identifier it held before (or accepted) must have that entry's content - the source may carry tampered objects under identifiers the destination already holds. Also: denied Append returns an error and changes neither entries nor heads. Non-trivial = an invalid candidate that is not a head of the source, with >= 2 candidates; distinct = distinct program."
+	c.Rule = "a generated multi-replica program (1-4 writers, default/link-key/legacy codec) builds valid logs; every appended entry must verify and the source must merge into a fresh permissive replica. Then a corruption plan (0..all positions; kinds: signature removed/from another entry/bit-flipped, key removed/foreign/garbage/truncated, payload/next/time changed after signing, foreign log id) is applied to copies placed in a source log built with NewLog(Entries, Heads), the destination holds another replica's entries - all of them or, in three cases of eight, only a window of the newest ones (what a bounded merge or limited load leaves) - and a generated pure access policy (deny by writer / payload prefix / hash set, or one that inspects the log through the context the library hands over and permits an entry only while that log is exactly what the destination held before the merge). The harness computes the candidate set itself; if any candidate is invalid or denied the merge must fail and leave the full snapshot (entries, heads, values, published heads, clock, result of a following append) unchanged, otherwise it must succeed with destination ∪ candidates. In half of the programs the valid source is first offered to a replica of another codec configuration (another link key, a link key where the writers have none, none where they have one): whatever it answers, every entry must still verify and merge under its own configuration. After every merge, whatever the log hands out as entries, heads or values under an identifier it held before (or accepted) must have that entry's content - the source may carry tampered objects under identifiers the destination already holds. Also: denied Append returns an error and changes neither entries nor heads. Non-trivial = an invalid candidate that is not a head of the source, with >= 2 candidates; distinct = distinct program. After a rejected merge the destination goes on (a merge of a peer holding what it held, a merge of the honest source, an append, the merge again) next to a twin log that never saw the rejected merge: outcomes and snapshots must agree step by step."
 	c.Assumptions = []string{"the access controller is a pure function safe for concurrent calls", "an entry with a foreign log id is skipped silently (together with what is only reachable through it), as the statement's first clause says, and is not one of the error-raising kinds"}
 	ev.Check(t, "C06", genC06, runC06)
 }
